@@ -811,6 +811,12 @@ def _check_geometry(run, world, lay, dumped, where, orient):
                       lambda: f"{where}: the box of a {b.kind.name} node spans [{a0}, {a1}] across "
                               f"the trunk of the species it belongs to, which spans [{lo}, {hi}]: "
                               f"it is laid out partly outside its species")
+    # "This rect includes the fork and the trunk" (render/model.py): a trunk that leaves the
+    # box of its own subtree is what makes it run into a cousin's trunk
+    for sp, sl in lay.items():
+        run.check(inside(tuple(sl.trunk), tuple(sl.rect)), ("C14",), "C14.trunk-outside-own-box",
+                  lambda: f"{where}: the trunk {tuple(sl.trunk)} of a species leaves the box "
+                          f"{tuple(sl.rect)} of its own subtree")
     trunks = [(sp.name, tuple(sl.trunk)) for sp, sl in lay.items()
               if sl.trunk.w > 0 and sl.trunk.h > 0]
     for i in range(len(trunks)):
